@@ -24,7 +24,7 @@ EXPLANATION = ('The real driver (to the wave-speed table), wave-curve functions 
                'neighbouring constant states at head and tail, (d) strict ordering of the wave speeds, on every wave pattern.')
 BOUNDS = ['gamma pairs from a finite rational set (incl. unequal); all other state variables, membrane position, time symbolic']
 OUTSIDE = ['the step from (a)-(d) to the integral balance (transport theorem) is a stated mathematical argument, not a solver query',
-           'general-EOS solver: only its kernels are covered (C07), its spliced P-U tables and ODE output are numerical',
+           "general-EOS solver: kernels in C07; region assembly, star state on the tabulated wave curves, contact and fan-node placement decided here on small tables: general-EOS Riemann driver (RiemannGenEOS.driver): run as coded with scipy.integrate.ode replaced by its contract (ideal-gas flag: the closed-form integral curve, proved to satisfy the real right-hand side drdp_dudp by the `geos.ode_contract' obligations), bisect by f(x*)=0, tables of 2 (rarefaction) / 4 (shock) nodes, empty internal grid; wave ordering and monotone fan knots (np.interp's precondition) are assumed; one obligation per wave pattern and per pair of table intervals containing p*; p* within one table step of an initial pressure (star-state lookup clamps to the last node) and the JWL flag are outside",
            'interpolation from the internal grid to user points']
 ASSUMPTIONS = ['bisect stub: returns an arbitrary root of the real star-pressure function inside [0, pmax]']
 META = {
@@ -173,4 +173,6 @@ def obligations(tier):
     for g in gams:
         obs.append(Fan('L', g))
         obs.append(Fan('R', g))
+    from . import geos
+    obs += geos.obligations('C04', tier)
     return obs
